@@ -38,7 +38,7 @@ func init() {
 			"H/inv: every batch of <=3 (4) members over {call with empty method (invalid, has an id), notification with empty method, echo call, notification, failing call, unknown method} with at least one invalid member, alone and amid other traffic, " +
 			"and the invalid members sent singly before/after every other op; H/rawinv: every raw batch of <=3 (4) members over {wrong version, scalar params, extra field, no method, empty method, valid call, notification} with at least one invalid member, " +
 			"posted through jhttp.Channel to a Bridge and sent to a jrpc2.Server over a direct channel, replies compared as multisets of (id, result | error); 0-4 gated calls in flight at Client.Close x {close first, release first, partial release} " +
-			"x {reader free, reader held} x single delays at every hch.*/cli.* hook visit; open response bodies and bubble goroutines counted after Close. " +
+			"x {reader free, reader held} x single delays at every hch.*/cli.* hook visit; open response bodies and bubble goroutines counted after Close; H/sc: 0-3 calls and 0-3 notifications handed to Send (or Client.Notify) and Close called at once from the same goroutine - no HTTP request may start after Close has returned. " +
 			"distinct_nontrivial = distinct symbol-class shapes (13 classes; for values of more than 5 symbols the first 3 and last 2 classes and the length) of query values that contain a quote, sign, digit, dot, escape, padding or reserved word (plain-letter values excluded) " +
 			"+ distinct (status, cause) Getter requests + distinct (scenario, delay key) channel executions",
 		Assumptions: []string{
